@@ -27,6 +27,35 @@ Proof. exact round_half_even_spec. Qed.
 Theorem C02_round_exact : forall s m e, (m < 10 ^ PREC)%N -> ETINY <= e <= ETOP -> round34 s m e = Some (mkdec s m e).
 Proof. exact round34_exact. Qed.
 
+(* every result of the rounding step is a decimal128 datum: coefficient below 10^34, exponent -6176..6111 (so no operation of the model can
+   return anything but a finite number or null) *)
+Theorem C02_round34_in_format : forall s m e d, round34 s m e = Some d -> in_format d = true.
+Proof. exact round34_in_format. Qed.
+
+(* division: the quotient is cut after >= 36 digits and one sticky digit records a non-zero remainder; rounding that number is rounding
+   the exact quotient n/b (nearest, ties to even) as soon as two digits are dropped, and ddiv always drops at least three *)
+Theorem C02_div_sticky : forall n b D, (0 < b)%N -> (2 <= D)%N ->
+  let q := (n / b)%N in let r := (n mod b)%N in
+  let m := (10 * q + (if (r =? 0)%N then 0 else 1))%N in
+  let c := Z.of_N (round_half_even m D) in let P := Z.of_N (10 ^ (D - 1)) in
+  2 * Z.abs (c * P * Z.of_N b - Z.of_N n) <= P * Z.of_N b /\
+  (2 * Z.abs (c * P * Z.of_N b - Z.of_N n) = P * Z.of_N b -> Z.even c = true).
+Proof. exact div_sticky. Qed.
+Theorem C02_div_drops_at_least_3 : forall ca cb e, (0 < ca)%N -> (0 < cb)%N ->
+  let k := Z.to_N (Z.max 0 (36 + Z.of_N (ndigits cb) - Z.of_N (ndigits ca))) in
+  let q := (ca * 10 ^ k / cb)%N in
+  forall s, (s <= 1)%N -> 3 <= target_exp (10 * q + s) e - e.
+Proof. exact ddiv_drops_at_least_3. Qed.
+
+(* square root: floor root plus a sticky digit; c is nearest to sqrt n / P (stated with squares of the half-way points), ties to even *)
+Theorem C02_sqrt_sticky : forall n D, (2 <= D)%N ->
+  let s := N.sqrt n in let m := (10 * s + (if (s * s =? n)%N then 0 else 1))%N in
+  let c := Z.of_N (round_half_even m D) in let P := Z.of_N (10 ^ (D - 1)) in
+  4 * Z.of_N n <= ((2 * c + 1) * P) ^ 2 /\ (0 < c -> ((2 * c - 1) * P) ^ 2 <= 4 * Z.of_N n) /\
+  (4 * Z.of_N n = ((2 * c + 1) * P) ^ 2 -> Z.even c = true) /\
+  (0 < c -> 4 * Z.of_N n = ((2 * c - 1) * P) ^ 2 -> Z.even c = true).
+Proof. exact sqrt_sticky. Qed.
+
 (* + and * : the exact integer result, then one rounding; exact when the exact result is representable *)
 Theorem C02_add_exact_then_round : forall a b,
   dadd a b = round_Z (scaled a (emin2 a b) + scaled b (emin2 a b)) (emin2 a b) (neg a && neg b).
@@ -89,6 +118,10 @@ Proof. exact model_nontrivial. Qed.
 Print Assumptions C02_round34_nearest_even.
 Print Assumptions C02_round_half_even.
 Print Assumptions C02_round_exact.
+Print Assumptions C02_round34_in_format.
+Print Assumptions C02_div_sticky.
+Print Assumptions C02_div_drops_at_least_3.
+Print Assumptions C02_sqrt_sticky.
 Print Assumptions C02_add_exact_then_round.
 Print Assumptions C02_mul_exact_then_round.
 Print Assumptions C02_add_exact.
